@@ -171,6 +171,16 @@ class _Path:
         self.dirname = posixpath.dirname
         self.sep = "/"
 
+    def abspath(self, p):
+        return self._d._norm(p)
+
+    def normpath(self, p):
+        return posixpath.normpath(p)
+
+    def getsize(self, p):
+        self._d._event("stat")
+        return len(self._d.files[self._d._norm(p)])
+
     def isfile(self, p):
         self._d._event("stat")
         return self._d._norm(p) in self._d.files
@@ -196,6 +206,29 @@ class OsShim:
 
     def listdir(self, p):
         return self._d.listdir(p)
+
+    def remove(self, p):
+        self._d._event("other")
+        p = self._d._norm(p)
+        if p not in self._d.files:
+            raise FileNotFoundError(_errno.ENOENT, "No such file or directory", p)
+        del self._d.files[p]
+
+    unlink = remove
+
+    def rename(self, a, b):
+        self._d._event("other")
+        a, b = self._d._norm(a), self._d._norm(b)
+        if a not in self._d.files:
+            raise FileNotFoundError(_errno.ENOENT, "No such file or directory", a)
+        self._d.files[b] = self._d.files.pop(a)
+
+    replace = rename
+
+    def makedirs(self, p, exist_ok=False, **kw):
+        self._d.mkdir(p)
+
+    mkdir = makedirs
 
     def __getattr__(self, name):
         # anything else (os.getcwd, os.environ, ...) falls through to the real module and is counted
@@ -320,12 +353,18 @@ class SimDisk:
 
 def install(disk):
     """Point every file-touching geomdl module at the simulated disk (module globals shadow builtins)."""
+    import sys
     import geomdl._exchange as ex
     import geomdl.exchange as exchange
     import geomdl.compatibility as compat
     import geomdl.voxelize as vox
-    ex.open = disk.open
-    compat.open = disk.open
-    vox.open = disk.open
-    exchange.open = disk.open
-    exchange.os = disk.os
+    for mod in (ex, exchange, compat, vox):
+        mod.open = disk.open
+    # every loaded geomdl module that holds a reference to the os module gets the shim (a change may start using
+    # os.path / os.listdir / os.remove in a module that did not before)
+    for name, mod in list(sys.modules.items()):
+        if mod is not None and (name == "geomdl" or name.startswith("geomdl.")):
+            if getattr(mod, "os", None) is not None:
+                mod.os = disk.os
+            if "open" in getattr(mod, "__dict__", {}) or name in ("geomdl.exchange_vtk",):
+                mod.open = disk.open
